@@ -9,7 +9,7 @@ unb = lambda s: base64.b64decode(s)
 def variants(src, contexts, imports, layouts):
     out = []
     for c in contexts:
-        try: s = gen.twice(src) if c == "twice" else gen.ctx(src, c)
+        try: s = gen.twice(src) if c == "twice" else gen.twice_defs(src) if c == "twice-defs" else gen.ctx(src, c)
         except Exception: s = None
         if s is None: continue
         for imp in imports:
@@ -19,7 +19,10 @@ def variants(src, contexts, imports, layouts):
             if s2 is None: continue
             for l in layouts:
                 try:
-                    if l in gen.CALL_LAYOUTS:
+                    if l in ("cp1252", "latin-1", "shift_jis"):
+                        d_ = gen.legacy_encoding(s2, l)
+                        if d_ is not None: out.append(((c, imp, "legacy-encoding-" + l), d_))
+                    elif l in gen.CALL_LAYOUTS:
                         s3 = gen.CALL_LAYOUTS[l](s2)
                         if s3 is not None: out.append(((c, imp, l), s3.encode("utf-8")))
                     else: out.append(((c, imp, l), gen.layout(s2, l)))
@@ -32,9 +35,9 @@ def plan(tier, seed):
     by = collections.defaultdict(list)
     for r in recs: by[r["codemod"]].append(r)
     if tier == "quick":
-        per, ctxs, imps, lays = 6, ("module", "def", "nested", "twice"), ("plain", "alias", "second-use", "mixed"), ("lf", "crlf", "bom", "exploded", "trailing-comma", "semicolon", "keywords-reversed")
+        per, ctxs, imps, lays = 5, ("module", "def", "nested", "twice", "twice-defs"), ("plain", "alias", "second-use", "mixed"), ("lf", "crlf", "bom", "exploded", "trailing-comma", "semicolon", "keywords-reversed", "cp1252")
     else:
-        per, ctxs, imps, lays = 10**6, ("module", "def", "async", "method", "nested", "prelude", "twice"), ("plain", "alias", "from", "second-use", "mixed"), ("lf", "crlf", "nonl", "bom", "tabs", "unicode", "exploded", "exploded-comments", "trailing-comma", "semicolon", "backslash", "formfeed", "keywords-reversed", "hanging")
+        per, ctxs, imps, lays = 10**6, ("module", "def", "async", "method", "nested", "prelude", "twice", "twice-defs"), ("plain", "alias", "from", "second-use", "mixed"), ("lf", "crlf", "nonl", "bom", "tabs", "unicode", "exploded", "exploded-comments", "trailing-comma", "semicolon", "backslash", "formfeed", "keywords-reversed", "hanging", "cp1252", "latin-1", "shift_jis")
     jobs = []
     for cid, rs in sorted(by.items()):
         rs = sorted(rs, key=lambda r: hashlib.sha1(r["input"].encode()).hexdigest())
@@ -49,6 +52,7 @@ def plan(tier, seed):
             for label, data in variants(r["input"], ctxs, imps, lays if tier != "quick" else lays):
                 # layouts only on plain/module+def to bound the grid
                 if label[2] != "lf" and not (label[1] == "plain" and label[0] in ("module", "def")): continue
+                if tier == "quick" and label[1] != "plain" and label[0] not in ("module", "def"): continue      # import styles x {module, def} only in the quick tier
                 h = hashlib.sha1(data).hexdigest()[:12]
                 seen.setdefault(h, (label, data))
         items = sorted(seen.items())
